@@ -13,7 +13,7 @@ BFT_NOTE = ("Assumes Byzantine weight <= f, atomic durable writes below EngineIn
 CHECKS = {
  "C01": dict(engine="bftsim", design="DESIGN.md section 5 (C01), section 4 (E1)",
    technique="deterministic simulation with fault injection: seeded search over schedules, network faults, crashes and Byzantine behaviours; global ledger oracle",
-   text="Seeded search over simulated cluster executions of the real replica code (bft::Config::run on a real EngineManager). A global ledger oracle checks after every event that no two correct nodes hand different payloads for one block number to the execution layer, that no node replaces a block (also on its durable chain across restarts), and that no two conflicting commit certificates ever appear in correct nodes' messages or stores. A clean batch is evidence bounded by the reported coverage, not a proof. Additional populations: 'hidden' (directed: commit votes reach one correct node only, that node is cut off once it alone holds the certificate, the rest time out and continue with a Byzantine validator among them, later the partition heals) and 'node/cluster' (4-6 complete executor::Executor nodes over simulated TCP, agreement over everything any execution layer was handed).",
+   text="Seeded search over simulated cluster executions of the real replica code (bft::Config::run on a real EngineManager). A global ledger oracle checks after every event that no two correct nodes hand different payloads for one block number to the execution layer, that no node replaces a block (also on its durable chain across restarts), and that no two conflicting commit certificates ever appear in correct nodes' messages or stores. A clean batch is evidence bounded by the reported coverage, not a proof. Additional populations: 'hidden' (directed: commit votes reach one correct node only, that node is cut off once it alone holds the certificate, the rest time out and continue with a Byzantine validator among them, later the partition heals), 'twins' (the Byzantine validator is 2-3 instances of the real replica code sharing one key, each with its own disk and a changing audience among the correct nodes - rule-abiding, well-timed equivocation - next to the scripted adversary) and 'node/cluster' (4-6 complete executor::Executor nodes over simulated TCP, agreement over everything any execution layer was handed).",
    note=BFT_NOTE),
  "C02": dict(engine="bftsim", design="DESIGN.md section 5 (C02)",
    technique="deterministic simulation; history-level oracle over correct commit votes + full Byzantine weight (potential certificates)",
